@@ -16,6 +16,9 @@ type RandGen interface {
 	Next(rng *rand.Rand, step int) Op
 }
 
+// MainHook, when set, runs after a walk / replay finished (before the process exits).
+var MainHook func()
+
 // Main is the command line shared by all sequential components:
 //
 //	walk   -edges F -out DIR [-mode probe|cover] [-maxlen N] [-traceevery K] [-seed S]
@@ -143,6 +146,9 @@ func Main(component string, newAdapter func() Adapter, gen RandGen) {
 	default:
 		fmt.Fprintln(os.Stderr, "unknown command", cmd)
 		os.Exit(2)
+	}
+	if MainHook != nil {
+		MainHook()
 	}
 }
 
